@@ -49,6 +49,10 @@ ALSO = {
 EXPECTED['regular_expressions::rigid_match_at'] = {'return': 1}
 EXPECTED['regular_expressions::next_rigid_match'] = {'return': 1}
 EXPECTED['regular_expressions::prev_rigid_match'] = {'return': 1}
+# C16.R4: a miss of a rigid pattern / a failing flexible region answers false at once
+EXPECTED['regular_expressions::find_rigid_matches'] = {'return': 1}
+EXPECTED['regular_expressions::find_rigid_matches_rev'] = {'return': 1}
+EXPECTED['regular_expressions::match_flexible_patterns'] = {'return': 1}
 EXPECTED['regular_expressions::contains'] = {'return': 2}   # linear search: found / passed the place where it would be (sorted by id)
 
 # functions whose loops are verified through inferred invariants and a full postcondition on every leaf (any extra exit
